@@ -329,6 +329,107 @@ def worklist_to_recursion(fn: ast.AST, unknown: Set[str]) -> int:
     return 1
 
 
+# --------------------------------------------------------------------------- flag / result locals
+def _only_tail_assigns(stmts: List[ast.stmt], v: str) -> bool:
+    """every assignment to v in the statement list is the last statement of its arm (nothing runs after it inside the list)"""
+    for i, st in enumerate(stmts):
+        last = i == len(stmts) - 1
+        if isinstance(st, ast.Assign) and any(isinstance(t, ast.Name) and t.id == v for t in st.targets):
+            if not last or len(st.targets) != 1:
+                return False
+            continue
+        has = any(isinstance(x, ast.Name) and x.id == v and isinstance(x.ctx, ast.Store) for x in ast.walk(st))
+        if not has:
+            continue
+        if not (last and isinstance(st, ast.If)):
+            return False
+        if not _only_tail_assigns(st.body, v) or not _only_tail_assigns(st.orelse, v):
+            return False
+    return True
+
+
+def _push(stmts: List[ast.stmt], v: str, default: Optional[ast.AST], mk) -> Optional[List[ast.stmt]]:
+    """replace the tail assignments `v = E` of the list by mk(E); an arm that assigns nothing gets mk(default)"""
+    if not stmts:
+        return mk(default) if default is not None else None
+    out = list(stmts[:-1])
+    last = stmts[-1]
+    if isinstance(last, ast.Assign) and len(last.targets) == 1 and isinstance(last.targets[0], ast.Name) and last.targets[0].id == v:
+        return out + mk(last.value)
+    if isinstance(last, ast.If) and any(isinstance(x, ast.Name) and x.id == v and isinstance(x.ctx, ast.Store) for x in ast.walk(last)):
+        b = _push(last.body, v, default, mk)
+        o = _push(last.orelse, v, default, mk)
+        if b is None or o is None:
+            return None
+        return out + [ast.copy_location(ast.If(test=last.test, body=b or [ast.Pass()], orelse=o), last)]
+    if default is None:
+        return None
+    return list(stmts) + mk(default)
+
+
+def flags_to_branches(fn: ast.AST, unknown: Set[str]) -> int:
+    """A local the reference tree does not know that only carries a verdict from the arms of an if-chain to one use right after it
+    (`ok = False; if c: ok = A else: ok = B` ... `return ok` / `if ok: BODY`) is the spelling `single exit with a flag`: the use is
+    pushed back into the arms (`return A` / `if A: BODY`)."""
+    done = 0
+    for v in sorted(unknown):
+        stores = [x for x in ast.walk(fn) if isinstance(x, ast.Name) and x.id == v and isinstance(x.ctx, ast.Store)]
+        loads = [x for x in ast.walk(fn) if isinstance(x, ast.Name) and x.id == v and isinstance(x.ctx, ast.Load)]
+        if not stores or len(loads) != 1:
+            continue
+        for b in _blocks(fn):
+            # the use: `return v` or `if v:` / `if not v:` without else, directly in this block
+            use_i = None
+            for i, st in enumerate(b):
+                if isinstance(st, ast.Return) and st.value is loads[0]:
+                    use_i, kind = i, "return"
+                elif isinstance(st, ast.If) and not st.orelse and (st.test is loads[0] or (
+                        isinstance(st.test, ast.UnaryOp) and isinstance(st.test.op, ast.Not) and st.test.operand is loads[0])):
+                    use_i, kind = i, ("ifnot" if isinstance(st.test, ast.UnaryOp) else "if")
+            if use_i is None:
+                continue
+            # all stores of v are in this block before the use
+            before = b[:use_i]
+            in_before = [x for s_ in before for x in ast.walk(s_) if isinstance(x, ast.Name) and x.id == v and isinstance(x.ctx, ast.Store)]
+            if len(in_before) != len(stores):
+                break
+            # an optional initial constant, then statements that do not touch v, then one statement that assigns in tail position(s)
+            default = None
+            idx = [i for i, s_ in enumerate(before) if any(isinstance(x, ast.Name) and x.id == v for x in ast.walk(s_))]
+            rest_idx = list(idx)
+            first = before[idx[0]]
+            if isinstance(first, ast.Assign) and len(first.targets) == 1 and isinstance(first.targets[0], ast.Name) and first.targets[0].id == v \
+                    and isinstance(first.value, ast.Constant) and len(idx) > 1:
+                default = first.value
+                rest_idx = idx[1:]
+            if len(rest_idx) != 1 or rest_idx[0] != use_i - 1:
+                break
+            carrier = before[rest_idx[0]]
+            if not _only_tail_assigns([carrier], v):
+                break
+            use = b[use_i]
+            if kind == "return":
+                mk = lambda e, use=use: [ast.copy_location(ast.Return(value=copy.deepcopy(e)), use)]  # noqa: E731
+            elif kind == "if":
+                mk = lambda e, use=use: ([] if isinstance(e, ast.Constant) and not e.value else copy.deepcopy(use.body) if isinstance(e, ast.Constant) else  # noqa: E731
+                                          [ast.copy_location(ast.If(test=copy.deepcopy(e), body=copy.deepcopy(use.body), orelse=[]), use)])
+            else:
+                mk = lambda e, use=use: ([] if isinstance(e, ast.Constant) and e.value else copy.deepcopy(use.body) if isinstance(e, ast.Constant) else  # noqa: E731
+                                          [ast.copy_location(ast.If(test=ast.UnaryOp(op=ast.Not(), operand=copy.deepcopy(e)), body=copy.deepcopy(use.body), orelse=[]), use)])
+            new = _push([carrier], v, default, mk)
+            if new is None:
+                break
+            if kind == "return":
+                # the arms now return; what used to fall through to `return v` without assigning returns the default
+                pass
+            b[rest_idx[0]:use_i + 1] = new
+            if default is not None:
+                b.remove(first)
+            done += 1
+            break
+    return done
+
+
 def unknown_locals(tree: ast.Module, modname: str) -> Dict[str, Set[str]]:
     """per top-level function / method: the locals whose defining signature the reference tree does not know. Computed before
     the surface normalisation drops annotation-only statements (they are part of the signatures)."""
@@ -364,6 +465,7 @@ def inline_aliases(tree: ast.Module, modname: str, unknown_map: Optional[Dict[st
         n += inline_aliases_in(fn, unknown)
         n += loops_to_comprehensions(fn, unknown)
         n += worklist_to_recursion(fn, unknown)
+        n += flags_to_branches(fn, unknown)
     if n:
         ast.fix_missing_locations(tree)
     return n
